@@ -268,6 +268,56 @@ def capalt_stream(ctx, count, repl="[$1|$2|$3]"):
 
 
 
+def relgroup_stream(ctx, count, repl="[$1|$2|$3]"):
+    """every capturing group sits directly under a fixed-length quantifier (reluctant or greedy,
+    minimum 0), with literal separators between them, on inputs where an earlier start position
+    captures the first group and then fails while the reported match leaves it out:
+    (a)??x(b)??y on "axz xby"; own generator state"""
+    rng = random.Random(ctx.seed * 982451653 + 9)
+    out = []
+    while len(out) < count:
+        a, b, c = rng.sample("abcd", 3)
+        x, y = rng.sample("xyz", 2)
+        qs = ["??", "??", "*?", "{0,2}?", "?", "*", "{0,1}?"]
+        q1, q2 = rng.choice(qs), rng.choice(qs)
+        pat = f"({a}){q1}{x}({b}){q2}{y}"
+        if rng.random() < 0.3:
+            pat += f"({c}){rng.choice(qs)}"
+        if rng.random() < 0.2:
+            pat = f"(?:{pat})"
+        inputs = [f"{a}{x}z {x}{b}{y}", f"{a}{x}{b}z {x}{y}", f"{a}{x} {a}{x}{y}", f"{a}{x}{y}", f"{x}{b}{y}{c}", f"{a}{a}{x}{b}{b}{y}",
+                  f"{a}{x}{b} {b}{x}{y}{c}", f"{x}{y} {a}{x}{b}{y}", ""]
+        for inp in inputs:
+            out.append(("xpath", rng.choice(["", "", "i"]), pat, inp, repl))
+    return out
+
+
+def staleend_stream(ctx, count, repl="[$1|$2]"):
+    """a group that completes on a path which is then abandoned, starting exactly where the engine
+    backtracks to and ending beyond the end of the match finally reported: a(bc)?b on "abcx",
+    x(?:(abc)|a)b on "xabcb"; own generator state"""
+    rng = random.Random(ctx.seed * 982451653 + 11)
+    out = []
+    while len(out) < count:
+        a, b, c = rng.sample("abcd", 3)
+        k = rng.random()
+        if k < 0.4:
+            pat = f"{a}({b}{c}){rng.choice(['?', '??', '*', '{0,2}'])}{b}"
+            inputs = [f"{a}{b}{c}x", f"{a}{b}{c}{b}", f"{a}{b}", f"x{a}{b}{c}{c} {a}{b}{c}{b}", f"{a}{b}{c}{b}{c}x"]
+        elif k < 0.7:
+            pat = f"x(?:({a}{b}{c})|{a}){b}"
+            inputs = [f"x{a}{b}{c}x x{a}{b}{c}{b}", f"x{a}{b}{c}", f"x{a}{b}", f"x{a}{b}{c}{b}", f"xx{a}{b}{c}x"]
+        elif k < 0.85:
+            pat = f"({a})?(?:({a}{b}{c})|{a}{b}){rng.choice(['', '?'])}{c}?"
+            inputs = [f"{a}{a}{b}{c}", f"{a}{b}{c}", f"{a}{a}{b}", f"{a}{b}", f"x{a}{a}{b}{c}{c}"]
+        else:
+            pat = f"{a}(?:({b}+){c}|{b})"
+            inputs = [f"{a}{b}{b}{b}x", f"{a}{b}{b}{c}", f"{a}{b}", f"{a}{b}{b}", f"{a}{a}{b}{b}x{a}{b}{c}"]
+        for inp in inputs:
+            out.append(("xpath", rng.choice(["", "", "i"]), pat, inp, repl))
+    return out
+
+
 # ================================================================ C01
 def slice_C01(ctx):
     rng = ctx.rng
@@ -328,6 +378,8 @@ def slice_C02(ctx):
         tuples.append((d, fl, pat, inp, "", "bigfollow"))
     for d, fl, pat, inp, _ in fixedrep_stream(ctx, ctx.n(2000, 20000)):
         tuples.append((d, fl, pat, inp, "", "fixedrep"))
+    for d, fl, pat, inp, _ in revisit_stream(ctx, ctx.n(3000, 30000)):
+        tuples.append((d, fl, pat, inp, "", "revisit"))
     # overlapping alternatives / greedy vs reluctant followed by optional terms
     hand = ["a|ab", "ab|a", "(?:a|ab)(?:c|bcd)", "a*?b?", "a+?b*", "(?:ab|a)(?:b|bc)?", "a{1,2}?a", "(?:a|b)*?b",
             "(?:aa|a)+", "(?:a|aa)+?b", ASTRAL + "|a", "[ab" + ASTRAL + "]+?" + ASTRAL, "a.b", "(?:.a|a.)"]
@@ -469,6 +521,10 @@ def slice_C03(ctx):
             tuples.append(("xpath", "", p, inp, "", "hand"))
     for d, fl, pat, inp, _ in capalt_stream(ctx, ctx.n(1200, 12000)):
         tuples.append((d, fl, pat, inp, "", "capalt"))
+    for d, fl, pat, inp, _ in relgroup_stream(ctx, ctx.n(1200, 12000)):
+        tuples.append((d, fl, pat, inp, "", "relgroup"))
+    for d, fl, pat, inp, _ in staleend_stream(ctx, ctx.n(600, 6000)):
+        tuples.append((d, fl, pat, inp, "", "staleend"))
     cases = mk_cases(tuples, "ra")
     code0 = None
     # the replacement asks for every group
@@ -560,6 +616,8 @@ def slice_C04(ctx):
         _, p_ = g.pattern(rng_p.randint(1, 6))
         for inp in gen.inputs_for(rng_p, al, 4):
             tuples.append(("xpath", rng_p.choice(["", "i"]), p_, inp, "", "punct"))
+    for d, fl, pat, inp, _ in staleend_stream(ctx, ctx.n(600, 6000)):
+        tuples.append((d, fl, pat, inp, "", "staleend"))
     cases = []
     cid = 0
     for t in tuples:
@@ -703,6 +761,31 @@ def fixedrep_stream(ctx, count, repl=""):
     return out
 
 
+def revisit_stream(ctx, count):
+    """a bounded min-0 repeat over a variable-length body that is entered more than once at the same
+    offset (an optional or repeated term before it gives the position back) and must backtrack
+    into an earlier repetition: q?(?:a|ab){0,2}c on qabaac; own generator state"""
+    rng = random.Random(ctx.seed * 86028121 + 7)
+    out = []
+    while len(out) < count:
+        pre = rng.choice(["q?", "q*", "q+", "(?:q|)", "q{0,2}", "(?:q|qa)?", "q??", "(q)?", "[qa]?"])
+        body = rng.choice(["a|ab", "ab|a", "a|aa", "aa|a", "ab?", "a+", "a|ab|b", "(a)|(ab)", "a|ba"])
+        lo = rng.choice([0, 0, 0, 1])
+        hi = rng.choice([1, 2, 2, 3, 4])
+        hi = max(hi, lo)
+        q = "{%d,%d}" % (lo, hi) + rng.choice(["", "", "?"])
+        post = rng.choice(["c", "c", "ac", "bc", "$", "(?:c|$)", "c+"])
+        grp = rng.choice(["(?:%s)", "(?:%s)", "(%s)"]) % body
+        pat = pre + grp + q + post
+        for _ in range(4):
+            k = rng.randint(0, 2)
+            inp = "q" * k + "".join(rng.choice(["a", "ab", "aa", "b", "ab"]) for _ in range(rng.randint(1, 4))) + rng.choice(["c", "c", "", "ac", "cc"])
+            if rng.random() < 0.3:
+                inp = rng.choice(["", "x", "c", "q"]) + inp
+            out.append(("xpath", "", pat, inp, ""))
+    return out
+
+
 def slice_C05(ctx):
     cases = mk_cases(arbitrary_stream(ctx) + precond_stream(ctx, ctx.n(2000, 20000)) + capalt_stream(ctx, ctx.n(1500, 15000)), "mrta")
     code, model, dis = run_slice(cases)
@@ -785,6 +868,28 @@ def grammar_stream(ctx, dialects):
         _, p = g.pattern(rng.randint(1, 10))
         tuples.append((d, rng.choice(["", "x", "i"]), p, "", "", "rendered"))
         tuples.append((d, "", gen.mutate(rng, p), "", "", "mutated"))
+        # flag x belongs to the grammar too: the pattern is accepted iff the pattern without the
+        # whitespace outside classes is - whitespace between tokens and inside multi-character
+        # tokens ({ 1 , 2 }, \p{ L }, an escaped bracket before it), valid and mutated patterns
+        g2 = gen.Gen(rng, alphabet=rng.choice(["ab", "a[b", "a]b", "a\\b", "a-b"]), dialect=d)
+        _, p2 = g2.pattern(rng.randint(1, 8))
+        if rng.random() < 0.5:
+            p2 = rng.choice(["\\[", "\\]", "[\\[]", "[\\]]", "\\[\\]"]) + p2
+        if rng.random() < 0.15:
+            p2 = gen.mutate(rng, p2)
+        wsp = ""
+        for t in tokenise_pattern(p2):
+            if rng.random() < 0.3:
+                wsp += rng.choice("\t\n\r ")
+            if not t.startswith("[") and len(t) > 1 and rng.random() < 0.5:
+                k = rng.randrange(1, len(t))
+                t = t[:k] + rng.choice("\t\n\r ") + t[k:]
+            wsp += t
+        tuples.append((d, rng.choice(["x", "x", "ix", "xm"]), wsp, "", "", "x-ws"))
+    for p in ["\\[a{ 2}", "\\[ \\p{ L }+", "[\\[]a{ 2}", "\\] a{ 1 , 2 }", "[a-z-[aeiou] ]", "[a-z-[aeiou]] b", "a{ 2", "a { 2 }", "( ? : a )",
+              "( ?: a)", "\\ n", "\\p { L }", "[ ]", "[ a - b ]", "a | b", " ", "a* ?", "a* +", "(a) \\ 1", "\\[ ]", "[\\]] {2}"]:
+        for d in dialects:
+            tuples.append((d, "x", p, "", "", "x-special"))
     # an XPath extension grafted onto a generated pattern: a reluctant marker after a quantifier, a
     # non-capturing group, a back-reference, \$ (all must be rejected under XSD, accepted under XPath)
     for _ in range(ctx.n(3000, 30000)):
@@ -848,7 +953,7 @@ def grammar_check(ctx, dialects, prop):
             if r.get("C") != exp:
                 violations.append(viol(c, exp, r.get("C"), "a malformed pattern / flag string is not rejected with the classified error", s, same))
     return result(ctx, cases, dis, violations, nontrivial,
-                  f"every string of length <= {ctx.n(3, 4)} over the metacharacter alphabet ()[]{{}}|*+?\\^$-.,a1, patterns rendered from generated ASTs (must be accepted), token-level mutations, 70 hand-written boundary cases, and every flag string of length <= 3 over {{s,m,i,x,q,;,g,k,K,z,S}}; dialects {list(dialects)}; acceptance compared with the three-valued grammar (no claim on its Unspecified band); non-trivial = distinct (dialect,flags,pattern) with a Valid/Invalid verdict",
+                  f"every string of length <= {ctx.n(3, 4)} over the metacharacter alphabet ()[]{{}}|*+?\\^$-.,a1, patterns rendered from generated ASTs (must be accepted), token-level mutations, patterns under flag x with whitespace between and inside tokens (accepted iff the stripped pattern is), 90 hand-written boundary cases, and every flag string of length <= 3 over {{s,m,i,x,q,;,g,k,K,z,S}}; dialects {list(dialects)}; acceptance compared with the three-valued grammar (no claim on its Unspecified band); non-trivial = distinct (dialect,flags,pattern) with a Valid/Invalid verdict",
                   {"distribution": dict(hist)})
 
 
@@ -1569,6 +1674,20 @@ def slice_C16(ctx):
     for d, fl, pat, inp, ast in random_stream(ctx, ctx.n(8000, 80000), per_pattern=3, size=(1, 6),
                                               dialects=("xpath", "xpath", "xsd"), extra_inputs=("",)):
         tuples.append((d, fl, pat, inp, "-"))
+    # a counted repeat over a body that is zero-width only where an anchor or a back-reference to
+    # an empty group holds: on the empty input every repetition is empty (own generator state)
+    rng_c = random.Random(ctx.seed * 49979687 + 3)
+    for _ in range(ctx.n(400, 4000)):
+        z = rng_c.choice(["^", "$", "^", "$", "\\1", "(?:^|$)", "^$"])
+        l = rng_c.choice(["a", "b", "ab", "[ab]"])
+        body = rng_c.choice(["%s|%s", "%s|%s", "%s|%s|c"]) % ((z, l) if rng_c.random() < 0.6 else (l, z))
+        n = rng_c.choice([2, 2, 3, 4])
+        q = rng_c.choice(["{%d}" % n, "{%d,}" % n, "{%d,%d}" % (n, n + 1), "{%d}?" % n])
+        pre = "(x?)" if "\\1" in z else rng_c.choice(["", "", "b?", "(?:)"])
+        post = rng_c.choice(["", "", "b?", "$"])
+        p_ = pre + "(?:" + body + ")" + q + post
+        for inp in ("", "ab", "b", "aab", "ba"):
+            tuples.append(("xpath", rng_c.choice(["", "m"]), p_, inp, "X"))
     # flag q: the empty literal is the one literal that matches the zero-length string
     for fl in ("q", "qi", "qm", "qx"):
         for p in ("", "a", "(", "a*"):
